@@ -6,7 +6,7 @@ from typing import Any, Dict, List
 
 from .. import gen, hta
 from ..core import Prop
-from .common import case_from_cfg, draw_prefix, write_and_load
+from .common import file_entries, case_from_cfg, draw_prefix, write_and_load
 
 
 # ----------------------------------------------------------------------------- dense laminar families
@@ -245,7 +245,7 @@ class C13(Prop):
                     for idx in rr.sample(hosts, min(len(hosts), case["nstacks"])):
                         sdf = cg.get_stack_of_node(idx, rank=r, skip_ancestors=True)
                         stacks.append({"id": idx, "ids": [int(i) for i in sdf["index"].tolist()]})
-                    obs["ranks"].append({"rank": r, "rows": rows, "stacks": stacks})
+                    obs["ranks"].append({"rank": r, "file": file_entries(case, r), "rows": rows, "stacks": stacks})
             except BaseException as ex:
                 obs["err"] = hta.exc_str(ex)
         return obs
@@ -287,13 +287,21 @@ class C16(Prop):
                    "the substring match name-contains-operator is computed by the harness"]
 
     def gen_case(self, rng, k, tier):
-        cfg = gen.GenCfg(n_ranks=1, n_steps=rng.choice([0, 1, 2]), p_launch=rng.choice([0.5, 0.8]), p_mem=0.15, p_sync=0.0,
+        cfg = gen.GenCfg(n_ranks=rng.choice([1, 2, 2]), n_steps=rng.choice([0, 1, 2]), p_launch=rng.choice([0.5, 0.8]), p_mem=0.15, p_sync=0.0,
                          adv=(1, 1, 2, 3), max_depth=rng.choice([3, 5]), max_children=rng.choice([3, 4]), ops_per_step=(2, 4),
                          kdelay=(1, 2, 3), kgap=(1, 2, 5), kdur=(1, 2, 3), base=rng.choice([0, 1000]), streams=rng.choice([(7,), (7, 9)]),
                          pre_ops=2, post_ops=2, unlinked_head=rng.choice([0, 1, 2]), p_drop_launch=rng.choice([0.0, 0.15]),
                          p_unlisted_launch=rng.choice([0.0, 0.1]))
+        if cfg.n_ranks > 1 and rng.random() < 0.5:
+            # a small first rank: its vocabulary is (usually) a strict subset of the other rank's, so the job's symbol table has the size
+            # of that rank's own table but another order
+            cfg.per_rank = {0: {"ops_per_step": (1, 1), "pre_ops": 1, "post_ops": 0, "max_depth": 2, "max_children": 2}}
         case = case_from_cfg(rng, cfg)
-        names = sorted({e["name"] for e in case["ranks"][0]["events"] if e.get("cat") == "cpu_op"})
+        # call history on one TraceAnalysis object: the ranks asked for, in order; the LAST call is the one that is validated
+        n = len(case["ranks"])
+        case["calls"] = [0] if n == 1 else rng.choice([[0], [1], [1], [0, 1], [1, 0], [0, 1, 0], [1, 0, 1]])
+        last = case["calls"][-1]
+        names = sorted({e["name"] for e in case["ranks"][last]["events"] if e.get("cat") == "cpu_op"})
         case["op"] = rng.choice(names)
         case["minLen"] = rng.choice([1, 2, 3])
         case["topk"] = rng.choice([1, 5])
@@ -301,23 +309,27 @@ class C16(Prop):
         return case
 
     def observe(self, case):
-        obs = {"prop": "C16", "err": "", "minLen": case["minLen"], "rows": [], "out": []}
+        obs = {"prop": "C16", "err": "", "minLen": case["minLen"], "rows": [], "out": [], "file": []}
         with hta.CaseDir("c16") as d:
             ta = write_and_load(case, d, include_last=True)
             try:
                 os_out = d + "/out"
                 import os
                 os.makedirs(os_out, exist_ok=True)
-                res = ta.get_frequent_cuda_kernel_sequences(operator_name=case["op"], output_dir=os_out, min_pattern_len=case["minLen"],
-                                                            rank=0, top_k=case["topk"], visualize=False)
+                calls = [r for r in case.get("calls", [0]) if r in ta.t.traces] or [sorted(ta.t.traces)[0]]
+                for rk in calls:
+                    res = ta.get_frequent_cuda_kernel_sequences(operator_name=case["op"], output_dir=os_out, min_pattern_len=case["minLen"],
+                                                                rank=rk, top_k=case["topk"], visualize=False)
+                rk = calls[-1]
                 sym = ta.t.symbol_table.get_sym_table()
                 op = case["op"]
-                df0 = ta.t.get_trace(0)
+                df0 = ta.t.get_trace(rk)
                 if "parent" not in df0.columns:          # the call returned before building the call graph
                     from hta.common.trace_call_graph import CallGraph
-                    CallGraph(ta.t, ranks=[0])
-                    df0 = ta.t.get_trace(0)
+                    CallGraph(ta.t, ranks=[rk])
+                    df0 = ta.t.get_trace(rk)
                 obs["rows"] = rows_with_stack(df0, sym, extra=lambda r: {"m": op in r["name"]})
+                obs["file"] = file_entries(case, rk)
                 starts = [x["ts"] for x in obs["rows"] if x["stream"] > 0 and x["link"] > 0]
                 if len(set(starts)) != len(starts):
                     return {"skip": True}                # 'start-time order' would be ambiguous
